@@ -62,8 +62,9 @@ AnchorExp(fn, j) == CASE fn = 0 \/ fn = 2 -> -j [] fn = 3 -> j [] OTHER -> -3 * 
 (* tolerances                                                                 *)
 (* ------------------------------------------------------------------------ *)
 ETol == RO                  \* first and second kind, Jacobi functions, Carlson R_F, R_C, R_D, 2-argument R_G
-\* third kind (Pi, G, H): full accuracy is demanded for moderate parameters; for near-singular or large parameters
-\* the R_J based forms lose digits and the documentation gives no bound: a coarse anchor (2^-31) of the definition
+\* third kind (Pi, G, H): full accuracy is demanded for moderate parameters (complements >= 2^-10, |k2|, |alpha2| < 4);
+\* for near-singular or large parameters the R_J based forms lose digits and the documentation gives no bound:
+\* a coarse anchor (2^-31) of the definition (named rule, notes/C15.md)
 Coarse == 4194304
 Moderate(r) == r.kp2e >= -10 /\ r.ap2e >= -10 /\ r.a2e <= 1 /\ r.k2e <= 1
 E3Tol(r) == IF Moderate(r) THEN 2 * RO ELSE Coarse
